@@ -134,6 +134,79 @@ def RL2(inp, nl):
     return Res(cl, nontrivial=c1 > ci, obs=lambda: dict(nl=nl, delivered=k, inflight=len(inflight), commit=show(c1), flast=show(flog[-1][1]), exc=show(exc)))
 
 
+@obligation('RL3', props=('C04', 'C02', 'C01'), quick=[dict(n=3), dict(n=4)], thorough=[dict(n=3), dict(n=4), dict(n=5)], stubs=_STUBS,
+            bounds='three real nodes (a, b and a third member c as the interim leader), logs of n<=5 entries, terms 1..3; the acknowledgement is produced by the real receiver for a batch of a\'s '
+                   'earlier leadership term and delivered after b\'s tail was overwritten by an interim leader and a was re-elected in a later term')
+def RL3(inp, n):
+    """delayed acknowledgement across terms: b stores a batch of leader a (term t0) and acknowledges it; the acknowledgement is
+    delayed; an interim leader c (term t1 > t0) overwrites those entries on b and on a; a is elected again (term t2 > t1) and
+    appends entries of its own at the same indices; now the old acknowledgement arrives.  Whatever a then counts for b, b holds:
+    matchIndex stays sound and nothing is committed that the follower does not store (commit-time majority for N=2+1)."""
+    now = inp.real('now', 0)
+    clock = so.Clock(now)
+    lead, ltr = so.make('a', ['b', 'c'], clock, inp)
+    fol, ftr = so.make('b', ['a', 'c'], clock, inp)
+    a, b, c = Node('a'), Node('b'), Node('c')
+    t0 = 1
+    t1 = inp.int('t1', 2, 3)
+    t2 = inp.int('t2', 3, 4)
+    inp.assume(t2 > t1)
+    k = inp.int('common', 1, n - 1)        # indices 1..k are common (term 0) and stay
+    common = [(so.NOOP, 1 + i, 0) for i in range(n)]
+    # 1. a, leader of term t0, sends the entries k+1..n (term t0) to b; b stores and acknowledges them
+    old = [(so.NOOP, 1 + i, 0 if 1 + i <= k else t0) for i in range(n)]
+    so.set_log(lead, old)
+    put(lead, 'raftCurrentTerm', t0); put(lead, 'raftState', L); put(lead, 'raftLeader', a)
+    get(lead, 'connectedNodes').add(b)
+    get(lead, 'raftNextIndex')[b] = 2; get(lead, 'raftMatchIndex')[b] = 0; get(lead, 'lastResponseTime')[b] = now
+    get(lead, 'raftNextIndex')[c] = 2; get(lead, 'raftMatchIndex')[c] = 0; get(lead, 'lastResponseTime')[c] = now
+    so.set_log(fol, [(so.NOOP, 1, 0)])
+    put(fol, 'raftElectionDeadline', now + 100)
+    _, exc = guard(getattr(lead, P + 'sendAppendEntries'))
+    for nd, m in list(ltr.sent):
+        if nd == b and exc is None:
+            _, exc = guard(getattr(fol, P + 'onMessageReceived'), a, m)
+    delayed = [m for nd, m in ftr.sent if nd == a]          # on their way to a, slowly
+    del ftr.sent[:]
+    # 2. interim leader c (term t1) overwrites the tail on b (real receiver) - and on a, which steps down
+    inter = [(so.NOOP, 1 + i, 0) for i in range(k)] + [(so.NOOP, k + 1, t1)]
+    msg = {'type': 'append_entries', 'term': t1, 'commit_index': inp.int('c_commit', 1, k + 1), 'entries': [inter[k]], 'prevLogIdx': k, 'prevLogTerm': 0}
+    if exc is None:
+        _, exc = guard(getattr(fol, P + 'onMessageReceived'), c, dict(msg))
+    if exc is None:
+        _, exc = guard(getattr(lead, P + 'onMessageReceived'), c, dict(msg))
+    del ftr.sent[:]
+    del ltr.sent[:]
+    # 3. a wins term t2 (votes of c and of itself), appends its no-op at k+2 and more entries; nothing of that reaches b
+    if exc is None:
+        put(lead, 'raftCurrentTerm', t2); put(lead, 'raftState', C); put(lead, 'votesCount', 2)
+        _, exc = guard(getattr(lead, P + 'onBecomeLeader'))
+    extra = inp.choice('extra', 3)
+    for i in range(extra):
+        log = get(lead, 'raftLog')
+        log.add(so.NOOP, log[-1][1] + 1, t2)
+    del ltr.sent[:]
+    # 4. the old acknowledgements arrive; a's tick may commit
+    if exc is None:
+        for m in delayed:
+            _, exc = guard(getattr(lead, P + 'onMessageReceived'), b, m)
+            if exc is not None:
+                break
+    put(lead, 'newAppendEntriesTime', now + 10)
+    c0 = lead.raftCommitIndex
+    if exc is None:
+        _, exc = guard(lead._onTick, 0.0)
+    flog, llog = so.log_of(fol), so.log_of(lead)
+    c1 = lead.raftCommitIndex
+    mt1 = get(lead, 'raftMatchIndex')[b]
+    cl = {'no_exception': exc is None}
+    cl['match_index_within_follower_log'] = And([Implies(e[1] <= mt1, so.has_entry(flog, e[1], e[2])) for e in llog])
+    # c's matchIndex is 0 here: an entry of term t2 can only be committed on the strength of b
+    cl['committed_own_term_entries_stored_by_the_follower'] = And([Implies(And(e[1] <= c1, e[1] > c0), so.has_entry(flog, e[1], e[2])) for e in llog])
+    return Res(cl, nontrivial=len(delayed) > 0, obs=lambda: dict(n=n, common=show(k), delayed=[(show(m['next_node_idx']), m['success'], show(m.get('term'))) for m in delayed],
+                                                                 match=show(mt1), commit=(show(c0), show(c1)), llog=show(llog), flog=show(flog), exc=show(exc)))
+
+
 @obligation('EL', props=('C03',), quick=[dict(N=3, k=2)], thorough=[dict(N=3, k=3), dict(N=4, k=3), dict(N=5, k=3)], stubs=_STUBS,
             bounds='N=3..5 real nodes of one common term in arbitrary roles consistent with the ghost relation "grants of this term"; <=3 deliveries of in-flight grants')
 def EL(inp, N, k):
@@ -365,7 +438,7 @@ def Sum_applied(fol, flog, cmd, other, x):
     return tot
 
 
-@obligation('EV', props=('C03',), quick=[dict(N=5), dict(N=4)], thorough=[dict(N=5), dict(N=4), dict(N=3)], stubs=_STUBS,
+@obligation('EV', props=('C03', 'C07'), quick=[dict(N=5), dict(N=4)], thorough=[dict(N=5), dict(N=4), dict(N=3)], stubs=_STUBS,
             bounds='one candidate of an N-node cluster and one real voter; request, grant, then any of: connection flap, repeated request, election-timer tick that is not due; all resulting messages delivered both ways')
 def EV(inp, N):
     """a grant is counted once: after a voter has granted its vote to a candidate, no connection flap, repeated delivery of the
